@@ -849,6 +849,7 @@ func (s *sched) apply(e event) {
 			return
 		}
 		c.conn = s.w.NewConn(c.i+1, addr, c.spec.Real)
+		c.conn.EOFWithData = c.spec.EOFData
 		c.conn.WFault = c.spec.WFault
 		c.dialed = true
 		if c.spec.Real {
